@@ -149,12 +149,12 @@ def _rewinds(stmts, p):
     return False
 
 
-def r2_rewind(ctx):
+def r2_rewind(ctx, rule='C12.R2', only=None, floor=6):
     corpus = ctx.corpus
     n = 0
     for ci in backend_classes(corpus):
-        if ci.name == 'S3':
-            continue  # inherits everything from S3Compatible
+        if ci.name == 'S3' or (only is not None and ci.name not in only):
+            continue  # S3 inherits everything from S3Compatible
         for (fname, p), f in _stream_params(corpus, ci).items():
             cons = _consumptions(f, p)
             if not cons:
@@ -167,7 +167,7 @@ def r2_rewind(ctx):
                 last = f.node.body[-2:] if len(f.node.body) >= 2 else f.node.body
                 ctx.check(
                     _rewinds(f.node.body, p),
-                    'C12.R2',
+                    rule,
                     f'{func_label(f)}|helper-rewinds-stream',
                     loc(f, cons[0]),
                     f'{f.qual}: reads the stream outside a retried function and rewinds it (seek(0)) before returning',
@@ -195,13 +195,13 @@ def r2_rewind(ctx):
                         ok = True
                 ctx.check(
                     ok,
-                    'C12.R2',
+                    rule,
                     f'{func_label(f)}|rewind-before-reraise',
                     loc(f, c),
                     f'{f.qual}: `{src(c, 50)}` is protected by a catch-all handler that rewinds `{p}` and re-raises (so the retry starts from byte 0)',
                     f'{f.qual}: `{src(c, 50)}` can fail in mid-transfer and be retried without the stream being rewound: {why}',
                 )
-    ctx.floor('C12.R2', 'stream consumption sites in the adapters', n, 6)
+    ctx.floor(rule, 'stream consumption sites in the adapters', n, floor)
 
 
 def _called_on_streams(corpus):
